@@ -57,6 +57,17 @@ def r1_filter_polarity(ctx):
         arg = astx.u(c.args[0])
         ctx.check(rel == [f"not in({arg}, {removed})"], f, c, f"candidate kept iff not in {removed}", str(rel),
                   f"`{astx.u(c)}` executes under {rel}; documented: keep `{arg}` iff it is not being removed")
+    # keyed stores guarded by membership (a filtered mapping built by a loop)
+    for n in astx.walk_own(f.node):
+        if isinstance(n, ast.Assign) and isinstance(n.targets[0], ast.Subscript) and not isinstance(n.targets[0].slice, ast.Slice):
+            lits = literals(N.conj(astx.path_condition(f.node, n, pm)))
+            rel = [l for l in lits if f", {removed})" in l and "in(" in l]
+            if not rel:
+                continue
+            sites += 1
+            arg = astx.u(n.targets[0].slice)
+            ctx.check(rel == [f"not in({arg}, {removed})"], f, n, f"entry kept iff its key is not in {removed}", str(rel),
+                      f"`{astx.u(n)}` executes under {rel}; documented: keep `{arg}` iff it is not being removed")
     for n in astx.walk_own(f.node):
         if isinstance(n, (ast.ListComp, ast.DictComp, ast.GeneratorExp, ast.SetComp)):
             for g in n.generators:
@@ -364,8 +375,36 @@ def r4_dropped(ctx):
             ks = [bool_key(Normalizer(None, inline=False).guard(t)) for t in n.generators[0].ifs]
             ctx.check(ks == [f"not le({v}.weight, 0)"] and astx.is_name(n.elt, v), f, n, "remove_cand drops exactly the zero-weight (exhausted) ballots", str(ks),
                       f"ballot filter is {ks}; documented: keep iff weight > 0")
-    if sites < 3:
-        ctx.violated(f, f.node, "remove_cand exhausted-ballot filters", f"{sites} filter sites (3 return shapes expected)")
+    if sites < 1:
+        ctx.violated(f, f.node, "remove_cand exhausted-ballot filters", "no filter over the rebuilt ballots")
+    # what reaches every `return`: a profile built from the filtered ballots, or - only under the flag - from all of them,
+    # possibly condensed - only under its flag (however many return shapes share that construction)
+    def form(dv):
+        if dv is None or astx.is_const(dv, None):
+            return "none"
+        if isinstance(dv, ast.Call) and astx.call_name(dv) == "PreferenceProfile":
+            bl = next((k.value for k in dv.keywords if k.arg == "ballots"), None)
+            if bl is not None and astx.u(bl) == "tuple(scrubbed_ballots)":
+                return "all"
+            inner = astx.strip_wrappers(bl) if bl is not None else None
+            if isinstance(inner, astx.LCOMP) and astx.u(inner.generators[0].iter) == "scrubbed_ballots" and inner.generators[0].ifs:
+                return "filtered"
+            return "other"
+        if isinstance(dv, ast.Call) and isinstance(dv.func, ast.Attribute) and dv.func.attr == "condense_ballots":
+            return "condensed"
+        return "other"
+    rets = [r for r in astx.walk_own(f.node) if isinstance(r, ast.Return) and r.value is not None]
+    for r in rets:
+        names = [x for x in ast.walk(r.value) if isinstance(x, ast.Name) and astx.defs_of(f.node, x.id) and x.id not in f.params]
+        forms = set()
+        for x in names:
+            for st, dv in astx.reaching_defs(f.node, x.id, r):
+                forms.add(form(dv))
+        forms.discard("none")
+        ctx.check("filtered" in forms and forms <= {"filtered", "all", "condensed"}, f, r, "what remove_cand returns is built from the filtered ballots (all of them only under the flag)",
+                  str(sorted(forms)), f"the value returned at line {r.lineno} is built as {sorted(forms)}")
+    if len(rets) < 2:
+        ctx.violated(f, f.node, "remove_cand return shapes", f"{len(rets)} value-returning exits")
     # every ballot goes through the rebuild: each path through the per-ballot loop stores the ballot's slot once.  A path
     # that skips the rebuild must establish that the ballot is not empty (an empty ballot is exhausted: weight 0)
     from vk.paths import PathCounter
@@ -380,7 +419,9 @@ def r4_dropped(ctx):
         lp = slot_loops[0]
         bv = astx.assigned_names(lp.target)[-1]
         fake = ast.parse("def _it():\n    pass\n").body[0]
-        fake.body = lp.body
+        from vk.paths import explicit_skips
+        fake.body = explicit_skips(lp.body)
+        ast.fix_missing_locations(fake)
         exits = PathCounter(fake, lambda x: isinstance(x, ast.Assign) and isinstance(x.targets[0], ast.Subscript) and astx.u(x.targets[0].value) == "scrubbed_ballots").run()
         Nl = Normalizer(f.node, inline=False)
         bad = []
@@ -397,12 +438,12 @@ def r4_dropped(ctx):
     # leave_zero_weight_ballots keeps everything
     keeps = [n for n in astx.walk_own(f.node) if isinstance(n, ast.Call) and astx.call_name(n) == "PreferenceProfile"
              and any(k.arg == "ballots" and astx.u(k.value) == "tuple(scrubbed_ballots)" for k in n.keywords)]
-    good = len(keeps) == 3 and all("truthy(leave_zero_weight_ballots)" in literals(N.conj(astx.path_condition(f.node, k, pm))) for k in keeps)
+    good = len(keeps) >= 1 and all("truthy(leave_zero_weight_ballots)" in literals(N.conj(astx.path_condition(f.node, k, pm))) for k in keeps)
     ctx.check(good, f, keeps[0] if keeps else f.node, "unfiltered ballots only under leave_zero_weight_ballots", "",
               "the unfiltered ballot tuple is used without leave_zero_weight_ballots")
     # condense only when asked
     cds = astx.calls_in(f.node, "condense_ballots")
-    good = len(cds) == 3 and all("truthy(condense)" in literals(N.conj(astx.path_condition(f.node, c, pm))) for c in cds)
+    good = len(cds) >= 1 and all("truthy(condense)" in literals(N.conj(astx.path_condition(f.node, c, pm))) for c in cds)
     ctx.check(good, f, cds[0] if cds else f.node, "condense only under the condense flag", "", "condense_ballots is not controlled by the condense flag")
     f = prog.find_func("remove_empty_ballots")
     comps = [n for n in astx.walk_own(f.node) if isinstance(n, astx.LCOMP)]
